@@ -794,7 +794,8 @@ struct Emitter {
     if (!handled && F && F->isIntrinsic()) {
       StringRef n = F->getName();
       handled = true;
-      if (n.startswith("llvm.memcpy")) body << "  memcpy(" << V(CB.getArgOperand(0)) << ", " << V(CB.getArgOperand(1)) << ", " << V(CB.getArgOperand(2)) << ");\n";
+      // llvm.memcpy allows source and destination to be exactly equal (self-assignment of a struct)
+      if (n.startswith("llvm.memcpy")) body << "  if ((void*)" << V(CB.getArgOperand(0)) << " != (void*)" << V(CB.getArgOperand(1)) << ") memcpy(" << V(CB.getArgOperand(0)) << ", " << V(CB.getArgOperand(1)) << ", " << V(CB.getArgOperand(2)) << ");\n";
       else if (n.startswith("llvm.memmove")) body << "  memmove(" << V(CB.getArgOperand(0)) << ", " << V(CB.getArgOperand(1)) << ", " << V(CB.getArgOperand(2)) << ");\n";
       else if (n.startswith("llvm.memset")) body << "  memset(" << V(CB.getArgOperand(0)) << ", " << V(CB.getArgOperand(1)) << ", " << V(CB.getArgOperand(2)) << ");\n";
       else if (n.startswith("llvm.lifetime") || n.startswith("llvm.dbg") || n.startswith("llvm.stackrestore") || n.startswith("llvm.assume") || n.startswith("llvm.experimental.noalias")) {}
